@@ -21,7 +21,32 @@ def innermost_cerberus_frame(exc):
     return name
 
 
+def real_cfg(cfg):
+    """the configuration for the real validator: registries given as plain dicts (as the model takes them) become Registry objects"""
+    if isinstance(cfg.get("rules_set_registry"), dict) or isinstance(cfg.get("schema_registry"), dict):
+        import refs
+        rr, sr = refs.make_registries(cfg.get("rules_set_registry") or {}, cfg.get("schema_registry") or {})
+        cfg = dict(cfg, rules_set_registry=rr, schema_registry=sr)
+    return cfg
+
+
+P_REFS = 0.0     # set by the property modules whose oracles understand registries (C01, C02, C06, C09, C11, C13)
+
+
+def with_references(g, schema, cfg, p=None):
+    """with probability p: some rule sets / sub-schemas of the schema given by NAME, registries bound to the validator"""
+    if g.r.random() >= (P_REFS if p is None else p):
+        return schema, cfg
+    import refs
+    pos = refs.referenceable(schema)
+    if not pos:
+        return schema, cfg
+    s2, rdefs, sdefs = refs.substitute(schema, g.r.sample(pos, g.r.randrange(1, min(3, len(pos)) + 1)))
+    return s2, dict(cfg, rules_set_registry=rdefs, schema_registry=sdefs)
+
+
 def real_validate(schema, cfg, doc, update, normalize=False, want_validator=False):
+    cfg = real_cfg(cfg)
     try:
         v = cerberus.Validator(schema, **cfg)
     except cerberus.SchemaError as e:
@@ -73,6 +98,7 @@ def gen_cases(seed, n, p_update=0.25, **genkw):
         else:
             doc = g.arbitrary_doc()
         update = g.r.random() < p_update
+        schema, cfg = with_references(g, schema, cfg)
         cases.append({"schema": schema, "config": cfg, "document": doc, "update": update})
     return cases
 
